@@ -490,7 +490,7 @@ expandfunc(struct macro *m)
 	struct macroarg *arg;
 	struct array str, tok;
 	size_t i, depth, paren;
-	struct token *t;
+	struct token *t, cur;
 
 	/* read macro arguments */
 	paren = 0;
@@ -520,9 +520,13 @@ expandfunc(struct macro *m)
 				if (p->flags & PARAMSTR)
 					stringize(&str, t);
 			}
-			if (p->flags & PARAMTOK && !expand(t)) {
-				arrayaddbuf(&tok, t, sizeof(*t));
-				++arg[i].ntoken;
+			if (p->flags & PARAMTOK) {
+				/* as in next(): the lookahead of expand() may release the storage of `t` */
+				cur = *t;
+				if (!expand(&cur)) {
+					arrayaddbuf(&tok, &cur, sizeof(cur));
+					++arg[i].ntoken;
+				}
 			}
 			t = rawnext();
 		}
@@ -648,11 +652,15 @@ keyword(struct token *tok)
 void
 next(void)
 {
-	struct token *t;
+	struct token t;
 
-	do t = rawnext();
-	while (expand(t) || t->kind == TNEWLINE && !(ppflags & PPNEWLINE));
-	tok = *t;
+	/*
+	expand() may look ahead for a '(' and thereby finish the macro
+	whose argument list holds the token: work on a copy
+	*/
+	do t = *rawnext();
+	while (expand(&t) || t.kind == TNEWLINE && !(ppflags & PPNEWLINE));
+	tok = t;
 	if (tok.kind == TIDENT)
 		keyword(&tok);
 }
